@@ -10,8 +10,14 @@
 (*            outcome must equal the one a fresh server gives, and the        *)
 (*            faithful model's memory stays empty.                            *)
 (*  upload  - an upload source of up to MaxUpload bytes handed over at every  *)
-(*            offset, seekable or not, typed or sniffed: the part written is  *)
-(*            what remained to be read.                                       *)
+(*            offset, seekable or not, typed or sniffed, healthy or failing   *)
+(*            after any number of bytes: the part written is what remained to *)
+(*            be read, or the request is not sent.                            *)
+(*  form    - a form field (scalar / multi) with up to 2 values in the body,  *)
+(*            urlencoded or multipart, and up to 2 same-named keys in the     *)
+(*            URL's query (static parameters): bound from the body alone.     *)
+(*  pieces  - a response body delivered in 1..3 pieces of 0..2 bytes, with    *)
+(*            and without connection re-use: it reaches the reader intact.    *)
 EXTENDS RoundTrip
 
 CONSTANTS PathAtoms, BodyAtoms, MaxLenName, MaxLenBody, MaxSteps, MaxUpload, SniffLen
@@ -37,7 +43,7 @@ Calls ==
   \cup { [op |-> o, vals |-> <<>>, media |-> m, body |-> b] : o \in {"addNote", "putNote"}, m \in BodyMedia, b \in Strs(BodyAtoms, 0, MaxLenBody) }
 
 NoCall == [op |-> "", vals |-> <<>>, media |-> "none", body |-> <<>>]
-Src0   == [content |-> <<>>, off |-> 0, seekable |-> FALSE, typed |-> FALSE]
+Src0   == [content |-> <<>>, off |-> 0, seekable |-> FALSE, typed |-> FALSE, failat |-> <<>>]
 
 Init == track = "start" /\ mem = Mem0 /\ n = 0 /\ call = NoCall /\ out = Refused /\ src = Src0
 
@@ -52,14 +58,30 @@ Exchange ==
 StartUpload ==
   /\ track = "start" /\ track' = "upload"
   /\ \E k \in 0..MaxUpload, sk \in BOOLEAN, ty \in BOOLEAN :
-       src' = [content |-> [i \in 1..k |-> i], off |-> 0, seekable |-> sk, typed |-> ty]
+       \E fa \in {<<>>} \cup {<<j>> : j \in 0..k} :
+         src' = [content |-> [i \in 1..k |-> i], off |-> 0, seekable |-> sk, typed |-> ty, failat |-> fa]
   /\ UNCHANGED <<mem, n, call, out>>
 ReadAhead ==        \* the caller consumes a byte before handing the source over
   /\ track = "upload" /\ src.off < Len(src.content)
   /\ src' = [src EXCEPT !.off = @ + 1]
   /\ UNCHANGED <<track, mem, n, call, out>>
 
-Next == StartSession \/ Exchange \/ StartUpload \/ ReadAhead
+\* form and pieces: the inputs are chosen in one step (call = the form case, out unused; src.content = the pieces' sizes)
+FormVals == {<<>>, <<<<97>>>>, <<<<98>>, <<>>>>, <<<<97>>, <<98>>>>}
+KVs(name, vals) == [i \in 1..Len(vals) |-> [k |-> name, v |-> vals[i]]]
+StartForm ==
+  /\ track = "start" /\ track' = "form"
+  /\ \E m \in {"urlencoded", "multipart"}, kd \in {"scalar", "multi"}, bv \in FormVals, qv \in FormVals, other \in BOOLEAN :
+       call' = [op |-> kd, vals |-> <<>>, media |-> m,
+                body |-> << KVs("f", bv), KVs("f", qv) \o (IF other THEN KVs("g", <<<<99>>>>) ELSE <<>>) >>]
+  /\ UNCHANGED <<mem, n, out, src>>
+PieceSets == UNION { [1..k -> {<<>>, <<1>>, <<1, 2>>}] : k \in 1..3 }
+StartPieces ==
+  /\ track = "start" /\ track' = "pieces"
+  /\ \E ps \in PieceSets, reuse \in BOOLEAN : src' = [Src0 EXCEPT !.content = ps, !.seekable = reuse]
+  /\ UNCHANGED <<mem, n, call, out>>
+
+Next == StartSession \/ Exchange \/ StartUpload \/ ReadAhead \/ StartForm \/ StartPieces
 Spec == Init /\ [][Next]_vars
 
 \* every call of every session arrives as supplied
@@ -68,5 +90,8 @@ SessionAgrees == (track = "session" /\ n > 0 /\ SessionCallInScope(call)) => Ses
 HistoryIndependent == (track = "session" /\ n > 0) => out = Serve(Mem0, Cfg, ClientRequest(Cfg, call)).out
 \* a correct implementation remembers nothing but its configuration
 NothingRemembered == mem = Mem0
-UploadAgreesMC == track = "upload" => UploadAgrees(src, SniffLen)
+UploadAgreesMC == track = "upload" => /\ (~SourceFails(src) => UploadAgrees(src, SniffLen))
+                                      /\ UploadOutcomeOK(src, SniffLen)
+FormAgreesMC   == track = "form" => FormAgrees(call.media, call.op, call.body[1], call.body[2], "f")
+PiecesIntactMC == track = "pieces" => BodyIntact(src.content, src.seekable)
 =============================================================================
